@@ -30,7 +30,7 @@ rng = random.Random(int(p.get('seed', 0)))
 ROUNDS = int(p.get('rounds', 40))
 
 
-def build(tmp, n, edges, res_edges, always, failing, creation_order):
+def build(tmp, n, edges, res_edges, always, failing, creation_order, bare=()):
     """jobs are CREATED in creation_order; edges (a, b): b.depends_on(a); res_edges (a, b): b reads a file a writes"""
     b = Batch(backend=LocalBackend(tmp_dir=tmp), name='c17')
     jobs = {}
@@ -42,6 +42,8 @@ def build(tmp, n, edges, res_edges, always, failing, creation_order):
     # commands: producers first so that the resource exists as a declared output, whatever the creation order
     for k in range(n):
         j = jobs[k]
+        if k in bare:
+            continue  # a job without any command (a pure barrier joined by depends_on): it cannot fail, and it passes a skip on
         j.command('touch %s/ran_%d' % (tmp, k))
         if any(a == k for a, _ in res_edges):
             j.command('echo x > %s' % j.ofile)
@@ -76,10 +78,12 @@ def one_round(r):
     failing = {k for k in range(n) if rng.random() < 0.35}
     creation = list(range(n))
     rng.shuffle(creation)
+    touched = {x for e in res_edges for x in e}
+    bare = {k for k in range(n) if k not in touched and k not in failing and rng.random() < 0.25}
     tmp = tempfile.mkdtemp(prefix='c17-')
-    desc = {'jobs': n, 'depends_on edges (parent, child)': edges, 'resource edges (producer, consumer)': res_edges, 'always_run': sorted(always), 'failing': sorted(failing), 'creation order': creation}
+    desc = {'jobs': n, 'depends_on edges (parent, child)': edges, 'resource edges (producer, consumer)': res_edges, 'always_run': sorted(always), 'failing': sorted(failing), 'jobs without a command': sorted(bare), 'creation order': creation}
     try:
-        b, jobs = build(tmp, n, edges, res_edges, always, failing, creation)
+        b, jobs = build(tmp, n, edges, res_edges, always, failing, creation, bare)
         deps = {k: {a for a, c in chosen if c == k} for k in range(n)}
         # (D) resource-induced dependencies are recorded
         for a, c in res_edges:
@@ -102,7 +106,7 @@ def one_round(r):
                     return dict(desc, what='job j%d (number %d) does not come after its dependency j%d (number %d)' % (k, ids[k], d, ids[d]), order=order)
         ran = {k for k in range(n) if os.path.exists('%s/ran_%d' % (tmp, k))}
         want_skip = spec_skip(n, deps, always, failing, order)
-        if ran != set(range(n)) - want_skip:
+        if ran - bare != set(range(n)) - want_skip - bare:
             return dict(desc, what='LocalBackend ran %s; the jobs to skip are exactly the non-always-run jobs depending (transitively) on a failed or skipped job: %s' % (sorted(ran), sorted(want_skip)), execution_order=order)
         if bool(err) != bool(failing - want_skip):
             return dict(desc, what='run() raised %r although the failing jobs that ran are %s' % (err, sorted(failing - want_skip)))
@@ -149,12 +153,117 @@ def cycles():
     return None
 
 
+def shortcut_family():
+    """acyclic pipelines in which a job created FIRST depends on a job created LAST both directly and through several middle
+    jobs (top -> base, top -> mid_i -> base): a walk that marks jobs before their dependencies are done emits a middle job
+    before base for some iteration order of the dependency sets, and the cycle check then rejects a valid pipeline.  Dry runs
+    (numbering only, nothing executed)."""
+    for nmid in (1, 2, 3, 5):
+        for rep in range(3):
+            tmp = tempfile.mkdtemp(prefix='c17s-')
+            try:
+                b = Batch(backend=LocalBackend(tmp_dir=tmp), name='short')
+                top = b.new_job(name='top')
+                mids = [b.new_job(name='mid%d' % i) for i in range(nmid)]
+                base = b.new_job(name='base')
+                for j in [top, base] + mids:
+                    j.command('true')
+                top.depends_on(base)
+                for m in mids:
+                    top.depends_on(m)
+                    m.depends_on(base)
+                try:
+                    b.run(dry_run=True, verbose=False)
+                except BatchException as e:
+                    return {'what': 'an acyclic pipeline was rejected: %r' % e, 'pipeline': 'top (created first) depends on base (created last) directly and through %d middle job(s)' % nmid}
+                ids = {j.name: j._job_id for j in b._jobs}
+                for j in b._jobs:
+                    for d in j._dependencies:
+                        if ids[d.name] >= ids[j.name]:
+                            return {'what': 'job %s (number %d) does not come after its dependency %s (number %d)' % (j.name, ids[j.name], d.name, ids[d.name])}
+            finally:
+                shutil.rmtree(tmp, ignore_errors=True)
+    return None
+
+
+def barrier_family():
+    """a failed job, a job WITHOUT any command that depends on it (a pure barrier), and a job behind the barrier: the skip
+    passes through the barrier"""
+    for always_gate in (False,):
+        tmp = tempfile.mkdtemp(prefix='c17b-')
+        try:
+            b = Batch(backend=LocalBackend(tmp_dir=tmp), name='barrier')
+            shards = [b.new_job(name='shard%d' % i) for i in range(3)]
+            for i, j in enumerate(shards):
+                j.command('touch %s/ran_shard%d' % (tmp, i))
+            shards[1].command('exit 7')
+            gate = b.new_job(name='gate')
+            for j in shards:
+                gate.depends_on(j)
+            publish = b.new_job(name='publish')
+            publish.command('touch %s/ran_publish' % tmp)
+            publish.depends_on(gate)
+            cleanup = b.new_job(name='cleanup')
+            cleanup.always_run()
+            cleanup.command('touch %s/ran_cleanup' % tmp)
+            cleanup.depends_on(gate)
+            try:
+                b.run(verbose=False, delete_scratch_on_exit=False)
+            except BatchException as e:
+                return {'what': 'an acyclic pipeline was rejected: %r' % e}
+            except BaseException:  # pylint: disable=broad-except
+                pass
+            ran = sorted(f[4:] for f in os.listdir(tmp) if f.startswith('ran_'))
+            if 'publish' in ran or 'cleanup' not in ran:
+                return {'what': 'shard1 fails; gate (no command) depends on the shards; publish depends on gate, cleanup (always_run) too: ran %s - publish must be skipped (it depends through gate on a failed job), cleanup must run' % ran}
+        finally:
+            shutil.rmtree(tmp, ignore_errors=True)
+    return None
+
+
+def python_job_arguments():
+    """a PythonJob that is handed another job's file only INSIDE a container argument (dict / list / tuple, positional or
+    keyword, nested) depends on the producer"""
+    shapes = {'dict-positional': lambda f: (({'x': f},), {}), 'dict-keyword': lambda f: ((), {'cfg': {'x': f}}), 'list': lambda f: (([1, f],), {}), 'tuple-keyword': lambda f: ((), {'t': (f, 2)}),
+              'nested': lambda f: (({'a': [{'b': (f,)}]},), {}), 'plain': lambda f: ((f,), {})}
+    for name, mk in shapes.items():
+        tmp = tempfile.mkdtemp(prefix='c17p-')
+        try:
+            b = Batch(backend=LocalBackend(tmp_dir=tmp), name='py', default_python_image='img')
+            consumer = b.new_python_job(name='consumer')
+            producer = b.new_job(name='producer')
+            producer.command('echo x > %s' % producer.ofile)
+            a, k = mk(producer.ofile)
+            try:
+                consumer.call(len, *a, **k) if False else consumer.call(_py_target, *a, **k)
+            except Exception as e:  # pylint: disable=broad-except
+                raise RuntimeError('PythonJob.call could not be exercised offline (%s): %r' % (name, e))
+            if producer not in consumer._dependencies:
+                return {'what': 'a python job given another job\'s file inside a %s argument does not depend on the producer' % name, 'argument shape': name}
+        finally:
+            shutil.rmtree(tmp, ignore_errors=True)
+    return None
+
+
+def _py_target(*a, **k):
+    return None
+
+
 out = {'confirmed': False, 'rounds': ROUNDS}
 devnull = open(os.devnull, 'w')
 saved = sys.stdout
 sys.stdout = devnull
 try:
     bad = cycles()
+    if bad is None:
+        bad = shortcut_family()
+    if bad is None:
+        bad = barrier_family()
+    if bad is None:
+        try:
+            bad = python_job_arguments()
+        except RuntimeError as e:
+            out['python_job_scenarios_skipped'] = str(e)
     if bad is None:
         for r in range(ROUNDS):
             bad = one_round(r)
